@@ -13,6 +13,7 @@
    * ghost fields (chain, used) are only read by the theorems. *)
 From Coq Require Import String Ascii.
 From PDV Require Import lib.Base gen.Gen_C19.
+(* gen.Gen_C19 supplies the scan batch size of the source (the default of the `bsz` field at boot) *)
 Local Open Scope string_scope.
 Local Open Scope Z_scope.
 
@@ -59,6 +60,7 @@ Record state := State {
   dr_total : Z;                   (* drTotalRegion *)
   regions : list region;          (* region cache, ascending start key, non-overlapping (the harness replaces whole layouts) *)
   stores : list store;
+  bsz : nat;                      (* regionScanBatchSize (1024 in the source; the harness lowers the package variable) *)
   (* ghost *)
   chain : list region;            (* regions the cursor has passed in this recovery, newest first *)
   used : list Z                   (* every state id ever put into a status, newest first *)
@@ -86,8 +88,10 @@ Definition has_majority (c : config) (dp dd : Z) : bool :=
 
 (* ---------- the three switches: AllocID ; replicate file ; save ; publish ---------- *)
 Definition set_status (s : state) (sv st : option status) (fl : list status) (nid : Z) (k : string) (c : Z)
-           (ch : list region) (us : list Z) : state :=
-  State (cfg s) sv st fl nid k c (tot s) (synced s) (dr_total s) (regions s) (stores s) ch us.
+           (published : bool) (ch : list region) (us : list Z) : state :=
+  (* `m.drAutoSync = dr` replaces the whole struct: the progress figures shown over HTTP restart at 0 *)
+  State (cfg s) sv st fl nid k c (if published then 0 else tot s) (if published then 0 else synced s) (dr_total s)
+        (regions s) (stores s) (bsz s) ch us.
 
 (* returns the new state, whether it was published, and the number of saves consumed *)
 Definition switch (s : state) (target : dstate) (f : fault) (idx : nat) : state * bool :=
@@ -98,10 +102,10 @@ Definition switch (s : state) (target : dstate) (f : fault) (idx : nat) : state 
   if ok then
     (* a successful switch to sync_recover resets the cursor; the other two leave it alone *)
     match target with
-    | SyncRecover => (set_status s (Some st) stored' (st :: files s) (id + 1) "" 0 [] (id :: used s), true)
-    | _ => (set_status s (Some st) stored' (st :: files s) (id + 1) (cur_key s) (cur_cnt s) (chain s) (id :: used s), true)
+    | SyncRecover => (set_status s (Some st) stored' (st :: files s) (id + 1) "" 0 true [] (id :: used s), true)
+    | _ => (set_status s (Some st) stored' (st :: files s) (id + 1) (cur_key s) (cur_cnt s) true (chain s) (id :: used s), true)
     end
-  else (set_status s (served s) stored' (st :: files s) (id + 1) (cur_key s) (cur_cnt s) (chain s) (used s), false).
+  else (set_status s (served s) stored' (st :: files s) (id + 1) (cur_key s) (cur_cnt s) false (chain s) (used s), false).
 
 Definition cur_state (s : state) : option dstate := option_map st_state (served s).
 Definition cur_id (s : state) : Z := match served s with Some x => st_id x | None => 0 end.
@@ -109,8 +113,7 @@ Definition in_state (s : state) (d : dstate) : bool :=
   match cur_state s with Some x => dstate_eqb x d | None => false end.
 
 (* ---------- updateProgress ---------- *)
-Definition scan_batch : nat := Z.to_nat Gen_C19.regionScanBatchSize_harness.
-Definition min_sample : nat := Z.to_nat Gen_C19.regionMinSampleSize_harness.
+Definition default_batch : nat := Z.to_nat Gen_C19.regionScanBatchSize.
 
 (* ScanRegions(key, nil, limit): from the region containing key, else the next one *)
 Definition before_key (k : string) (r : region) : bool := negb (key_empty (r_end r)) && negb (str_ltb k (r_end r)).
@@ -119,7 +122,9 @@ Fixpoint drop_before (k : string) (l : list region) : list region :=
   | [] => []
   | r :: t => if before_key k r then drop_before k t else l
   end.
-Definition scan (l : list region) (k : string) (limit : nat) : list region := firstn limit (drop_before k l).
+(* ScanRange: limit <= 0 means no limit *)
+Definition scan (l : list region) (k : string) (limit : nat) : list region :=
+  match limit with O => drop_before k l | _ => firstn limit (drop_before k l) end.
 
 Definition recovered (sid : Z) (r : region) (k : string) : bool :=
   String.eqb k (r_start r) && (r_sid r =? sid) && r_int r.
@@ -136,14 +141,14 @@ Fixpoint progress_loop (fuel : nat) (s : state) : state :=
   | O => s
   | S n =>
       if negb (key_empty (cur_key s)) || (cur_cnt s =? 0) then
-        let batch := scan (regions s) (cur_key s) scan_batch in
+        let batch := scan (regions s) (cur_key s) (bsz s) in
         match batch with
         | [] => s                                         (* "scan empty regions" *)
         | _ =>
             let '(k, c, passed, hit) := walk (cur_id s) (cur_key s) (cur_cnt s) (chain s) batch in
             let s1 := State (cfg s) (served s) (stored s) (files s) (next_id s) k c (tot s) (synced s)
                             (if hit then Z.of_nat (length (regions s)) else dr_total s)
-                            (regions s) (stores s) passed (used s) in
+                            (regions s) (stores s) (bsz s) passed (used s) in
             if hit then s1 else progress_loop n s1
         end
       else s
@@ -170,13 +175,13 @@ Definition tick (s : state) (f : fault) : state :=
     let s3 := update_progress s2 in
     if finished s3 then fst (switch s3 Sync f n2)
     else State (cfg s3) (served s3) (stored s3) (files s3) (next_id s3) (cur_key s3) (cur_cnt s3)
-               (dr_total s3) (cur_cnt s3) (dr_total s3) (regions s3) (stores s3) (chain s3) (used s3)
+               (dr_total s3) (cur_cnt s3) (dr_total s3) (regions s3) (stores s3) (bsz s3) (chain s3) (used s3)
   else s2.
 
 (* ---------- UpdateConfig ---------- *)
 Definition set_cfg (s : state) (c : config) : state :=
   State c (served s) (stored s) (files s) (next_id s) (cur_key s) (cur_cnt s) (tot s) (synced s) (dr_total s)
-        (regions s) (stores s) (chain s) (used s).
+        (regions s) (stores s) (bsz s) (chain s) (used s).
 Definition update_config (s : state) (c : config) (f : fault) : state * bool :=
   if negb (cf_dr (cfg s)) && cf_dr c then
     let '(s1, ok) := switch (set_cfg s c) SyncRecover f 0 in
@@ -196,10 +201,10 @@ Inductive op :=
 
 Definition set_regions (s : state) (l : list region) : state :=
   State (cfg s) (served s) (stored s) (files s) (next_id s) (cur_key s) (cur_cnt s) (tot s) (synced s) (dr_total s)
-        l (stores s) (chain s) (used s).
+        l (stores s) (bsz s) (chain s) (used s).
 Definition set_stores (s : state) (l : list store) : state :=
   State (cfg s) (served s) (stored s) (files s) (next_id s) (cur_key s) (cur_cnt s) (tot s) (synced s) (dr_total s)
-        (regions s) l (chain s) (used s).
+        (regions s) l (bsz s) (chain s) (used s).
 
 Inductive res := ROk | RErr.
 Definition run_cmd (s : state) (o : op) : state * res :=
@@ -233,11 +238,11 @@ Definition run_op (s : state) (o : op) : state * obs :=
 
 (* boot = NewReplicationModeManager: in dr-auto-sync mode the stored status is loaded, or, when there is
    none, the manager starts in `sync` (loadDRAutoSync -> drSwitchToSync) *)
-Definition boot (c : config) (st : option status) (id0 : Z) (rs : list region) (ss : list store) : state :=
-  let s0 := State c None st [] id0 "" 0 0 0 0 rs ss [] (match st with Some x => [st_id x] | None => [] end) in
+Definition boot (c : config) (st : option status) (id0 : Z) (rs : list region) (ss : list store) (b : nat) : state :=
+  let s0 := State c None st [] id0 "" 0 0 0 0 rs ss b [] (match st with Some x => [st_id x] | None => [] end) in
   if cf_dr c then
     match st with
-    | Some x => State c (Some x) st [] id0 "" 0 0 0 0 rs ss [] [st_id x]
+    | Some x => State c (Some x) st [] id0 "" 0 0 0 0 rs ss b [] [st_id x]
     | None => fst (switch s0 Sync no_fault 0)
     end
   else s0.
@@ -250,9 +255,9 @@ Definition obs_eqb (a b : obs) : bool :=
   && opt_eqb status_eqb (o_stored a) (o_stored b) && list_eqb status_eqb (o_files a) (o_files b)
   && String.eqb (o_key a) (o_key b) && (o_cnt a =? o_cnt b) && (o_tot a =? o_tot b) && (o_synced a =? o_synced b).
 
-Record bootp := Boot { b_cfg : config; b_st : option status; b_id0 : Z; b_regions : list region; b_stores : list store }.
+Record bootp := Boot { b_cfg : config; b_st : option status; b_id0 : Z; b_regions : list region; b_stores : list store; b_batch : nat }.
 Definition case := (bootp * list op * list obs)%type.
-Definition boot_of (b : bootp) : state := boot (b_cfg b) (b_st b) (b_id0 b) (b_regions b) (b_stores b).
+Definition boot_of (b : bootp) : state := boot (b_cfg b) (b_st b) (b_id0 b) (b_regions b) (b_stores b) (b_batch b).
 Definition boot_obs (b : bootp) : obs :=
   let s := boot_of b in
   Obs ROk (cf_dr (cfg s)) (if cf_dr (cfg s) then served s else None) (stored s) (rev (files s)) (cur_key s) (cur_cnt s) 0 0.
@@ -291,7 +296,8 @@ Definition explain (cs : list case) : list (nat * nat * list string) :=
    the operations and judges the observed status changes against them. *)
 Record mon := Mon {
   m_cfg : config; m_stores : list store; m_regions : list region;
-  m_good : list region;      (* regions seen in the cache, at some tick of the current recovery, with integrity under the current id *)
+  m_gid : Z;                 (* the state id the good set below belongs to *)
+  m_good : list region;      (* regions seen in the cache, at some tick of the recovery under m_gid, with integrity under m_gid *)
   m_ids : list Z             (* state ids seen in served statuses or files *)
 }.
 
@@ -321,12 +327,11 @@ Definition mon_step (m : mon) (o : op) (prev cur : obs) : mon * list string :=
   let is_tick := match o with OTick _ => true | _ => false end in
   let to (d : dstate) := match cs with Some x => changed && dstate_eqb (st_state x) d | None => false end in
   let from (d : dstate) := match ps with Some x => dstate_eqb (st_state x) d | None => false end in
-  (* the set of regions that were good under the (new) current id at this tick *)
-  let sid := match cs with Some x => st_id x | None => 0 end in
-  let same_id := match ps, cs with Some a, Some b => st_id a =? st_id b | _, _ => false end in
-  let good' := if is_tick then ((if same_id then m_good m else []) ++ good_now (match ps with Some x => st_id x | None => 0 end) (m_regions m))%list
-               else if same_id then m_good m else [] in
-  let v :=
+  let pid := match ps with Some x => st_id x | None => 0 end in
+  (* the id the scan of this tick ran under: the new one if this very tick entered sync_recover *)
+  let scan_id := match cs with Some x => if dstate_eqb (st_state x) SyncRecover then st_id x else pid | None => pid end in
+  let acc := ((if m_gid m =? scan_id then m_good m else []) ++ good_now scan_id (m_regions m))%list in
+  let v := (
     (* 1 async only when one dc lost all its replicas, a majority can be up, and the timeout passed *)
     (if is_tick && to Async && negb (negb csync && hmaj && cf_async_ok (m_cfg m)) then ["C19:async-without-cause"] else []) ++
     (* 2 async -> sync_recover only when both dcs have fewer failed stores than replicas *)
@@ -335,7 +340,7 @@ Definition mon_step (m : mon) (o : op) (prev cur : obs) : mon * list string :=
     (* 3 sync only after a full contiguous chain of regions with integrity under the current id *)
     (if is_tick && to Sync then
        if negb (from SyncRecover) then ["C19:sync-not-from-sync-recover"]
-       else if chain_from (S (length good')) good' "" then [] else ["C19:sync-declared-without-full-scan"]
+       else if chain_from (S (length acc)) acc "" then [] else ["C19:sync-declared-without-full-scan"]
      else []) ++
     (* 4 every published status carries an id never seen before *)
     (if changed then match cs with Some x => if memZ' (st_id x) (m_ids m) then ["C19:state-id-reused"] else [] | None => [] end else []) ++
@@ -347,18 +352,18 @@ Definition mon_step (m : mon) (o : op) (prev cur : obs) : mon * list string :=
        | None => []
        end
      else []) ++
-    (* 6 a failed persist leaves the served status unchanged (the driver tells which saves failed through the op) *)
+    (* 6 a failed persist leaves the served status unchanged *)
     (match o with
      | OTick f | OConfig _ f =>
          match f_save f with
          | Some (0%nat, _) =>
-             (* the first save of this operation failed: whatever changed must come from a later, successful save *)
+             (* the first save of this operation failed: a change can only come from a later, successful switch *)
              if changed && Nat.leb (length (o_files cur)) 1 then ["C19:failed-persist-changed-served-status"] else []
          | _ => []
          end
      | _ => []
-     end) in
-  (Mon cfg' stores' regions' good'
+     end))%list in
+  (Mon cfg' stores' regions' (if is_tick then scan_id else m_gid m) (if is_tick then acc else m_good m)
        ((match cs with Some x => [st_id x] | None => [] end) ++ map st_id (o_files cur) ++ m_ids m)%list, v).
 
 Fixpoint mon_run (m : mon) (ops : list op) (prev : obs) (obs_l : list obs) : list string :=
@@ -372,7 +377,7 @@ Definition monitor (c : case) : list string :=
   | b0 :: br =>
       (* the ids of the boot observation are spent; an id both served and in a file of the SAME step is one id *)
       let ids0 := (match o_stored b0 with Some x => [st_id x] | None => [] end) in
-      nodup string_dec (mon_run (Mon (b_cfg b) (b_stores b) (b_regions b) [] ids0) ops b0 br)
+      nodup string_dec (mon_run (Mon (b_cfg b) (b_stores b) (b_regions b) 0 [] ids0) ops b0 br)
   | [] => ["C19:empty-trace"]
   end.
 Fixpoint monitor_fails_from (n : nat) (cs : list case) : list (nat * string) :=
